@@ -18,6 +18,9 @@ class IsNonRandExprVisitor(ModelVisitor):
         return self._is_nonrand
 
     def visit_expr_fieldref(self, e):
-        self._is_nonrand = not e.fm.is_used_rand
+        # An expression is non-random only if none of the 
+        # fields it references is random
+        if e.fm.is_used_rand:
+            self._is_nonrand = False
         
         
